@@ -115,6 +115,13 @@ func runC12(o *opts) (*summary, error) {
 	if thorough {
 		maxStr = 5
 	}
+	// a COLD process decodes before it has ever encoded (a reader of controller replies): whatever the package sets up on
+	// first use, Decode's answer must not depend on Encode having run (the encodes that follow are the other order)
+	for _, in := range [][]byte{{0x1a}, {0xa1}, {0xff}, {0x0a}, {0x12, 0x3f}, {0x12, 0xb4}, {0x99, 0x9a}, {0xc0, 0x00}, {0x20, 0x26, 0x0d, 0x29},
+		// (the refused ones first: a refused decode encodes nothing)
+		{0x12}, {0x00}, {0x99}, {0x20, 0x26, 0x09, 0x29}, {}} {
+		w.put(bcdDec(in), "dec-cold", fmt.Sprintf("dc%v", in))
+	}
 	var gen func(prefix []byte, n int)
 	gen = func(prefix []byte, n int) {
 		w.put(bcdEnc(prefix), "enc", "e"+string(prefix))
